@@ -14,6 +14,9 @@ pub assume_specification<T, U, F>[ Option::<T>::map_or ](o: Option<T>, d: U, f: 
 pub assume_specification<T: std::default::Default>[ std::mem::take ](x: &mut T) -> (r: T)
   ensures r == *old(x), call_ensures(T::default, (), *final(x));
 
+pub assume_specification<T>[ Option::<T>::replace ](o: &mut Option<T>, v: T) -> (r: Option<T>)
+  ensures r == *old(o), *final(o) == Some(v);
+
 // ---- notifications ----------------------------------------------------------------------------
 pub enum Ev<Item, Err> { Next(Item), Error(Err), Complete }
 
